@@ -232,7 +232,7 @@ class ReadSetReader:
         variants = dict()
         skip = set()
         for read in group:
-            if read.is_reverse != primary.is_reverse:
+            if read.is_supplementary and read.is_reverse != primary.is_reverse:
                 continue
             if primary.distance(read) > distance_threshold:
                 continue
